@@ -299,6 +299,17 @@ Qed.
 Theorem shape_ok : shape_recognised = true.
 Proof. vm_compute. reflexivity. Qed.
 
+(* no other library function touches the locale: the translator found no call of uselocale /
+   setlocale / newlocale / duplocale / freelocale in any library source outside
+   json_tokener_parse_ex.  In particular the serializer's locale protocol is the empty path:
+   json_object_to_json_string_ext — succeeding or failing — leaves the thread's locale as it was *)
+Theorem no_stray_locale_calls : stray_locale_calls = 0%nat.
+Proof. vm_compute. reflexivity. Qed.
+
+Theorem empty_path_leaves_locale : forall en,
+  cur (run en []) = HEntry /\ cur_forced_c (run en []) = false /\ live (run en []) = [] /\ bad (run en []) = false.
+Proof. intros. vm_compute. repeat split; reflexivity. Qed.
+
 (* by computation over the regenerated, finite, complete list *)
 Theorem exits_checked : forallb exit_ok exits = true.
 Proof. vm_compute. reflexivity. Qed.
